@@ -22,12 +22,16 @@ Abs(z) == IF z < 0 THEN -z ELSE z
 SameSign == \A i, j \in 1..N : D[i] * D[j] > 0
 
 (* abstract sources on the y axis:  kind "abs": sigma = s/10 ;  kind "rel": sigma_i = p % of the data value d_i ; rho = h/2 *)
-Sources == [kind : {"abs"}, s : {2, 5}, h : {0, 1, 2}] \cup [kind : {"rel"}, s : {10, 20}, h : {0, 1, 2}]
+(*                                kind "relm": sigma_i = p % of the MODEL value m_i (at the default parameters m = <<2, 3, 4>>)                    *)
+Sources == [kind : {"abs"}, s : {2, 5}, h : {0, 1, 2}] \cup [kind : {"rel"}, s : {10, 20}, h : {0, 1, 2}] \cup [kind : {"relm"}, s : {10}, h : {0, 2}]
+M == <<2, 3, 4>>
 
 SourceForms == {"scalar", "vector", "cov", "cor", "abs_vector", "abs_cov", "wrapper", "yaml_short", "yaml_full"}
 
 (* which forms can express which source *)
 Admissible(f, src) ==
+  IF src.kind = "relm" THEN f \in {"scalar", "vector", "wrapper"}       \* the wrappers' default: relative uncertainties refer to the model
+  ELSE
   CASE f \in {"scalar", "vector", "cov", "cor", "yaml_full"} -> TRUE
     [] f = "abs_vector" -> src.kind = "rel" /\ (src.h = 0 \/ SameSign \/ "abs_ignores_sign" \in Faults)   \* |p d_i| loses the sign of d_i d_j
     [] f = "abs_cov"    -> src.kind = "rel"
@@ -36,7 +40,7 @@ Admissible(f, src) ==
 
 (* covariance x 20000 denoted by a form *)
 Sigma2(src, i, j) ==       \* sigma_i * sigma_j x 10000, signed for relative sources (sigma_i = p d_i / 100)
-  IF src.kind = "abs" THEN 100 * src.s * src.s ELSE src.s * src.s * D[i] * D[j]
+  IF src.kind = "abs" THEN 100 * src.s * src.s ELSE IF src.kind = "rel" THEN src.s * src.s * D[i] * D[j] ELSE src.s * src.s * M[i] * M[j]
 AbsSigma2(src, i, j) == src.s * src.s * Abs(D[i]) * Abs(D[j])
 Cov(f, src) ==
   [i \in 1..N |-> [j \in 1..N |->
@@ -65,7 +69,7 @@ Init == left = <<>> /\ right = <<>> /\ nsrc = 0 /\ ncon = 0 /\ act = [name |-> "
 
 (* the right-hand fit always uses the canonical form -- the explicit absolute covariance matrix -- so that every form is compared *)
 (* with the same partner and, transitively, with every other form                                                               *)
-Canonical(src) == IF src.kind = "abs" THEN "cov" ELSE "abs_cov"
+Canonical(src) == IF src.kind = "abs" THEN "cov" ELSE IF src.kind = "rel" THEN "abs_cov" ELSE "scalar"
 CCanonical(c) == IF c.kind = "simple" THEN "abs" ELSE "cov"
 Declare(src, fl, fr) ==
   /\ Bounded("Declare") /\ src \in Sources /\ nsrc < 2
@@ -90,7 +94,7 @@ Next == (\E s \in Sources, fl, fr \in SourceForms : Declare(s, fl, fr)) \/ (\E c
 Spec == Init /\ [][Next]_vars
 
 -----------------------------------------------------------------------------
-IsSource(e) == e.item.kind \in {"abs", "rel"}
+IsSource(e) == e.item.kind \in {"abs", "rel", "relm"}
 Total(side) == FoldLeft(LAMBDA acc, e : IF IsSource(e) THEN Plus(acc, Cov(e.form, e.item)) ELSE acc, Zero, side)
 ConsOf(side) == SelectSeq(side, LAMBDA e : ~IsSource(e))
 ConsNormal(side) == [k \in DOMAIN ConsOf(side) |-> [v |-> ConsOf(side)[k].item.v, cov |-> CCov(ConsOf(side)[k].form, ConsOf(side)[k].item)]]
